@@ -371,3 +371,9 @@ MANIFEST_ENTRY = dict(
     note='Bounded table sizes and board family (tier B); log/exp through LogVal.',
 )
 END_MANIFEST_ENTRY = True
+
+
+SENTINELS = globals().get('SENTINELS', []) + [
+    Sentinel('product-ignores-the-second-factor', 'msdm.core.distributions.discretefactortable', '                    logit = self.logit(si) + other.logit(oi)\n                    if logit == -np.inf:',
+             '                    logit = self.logit(si)\n                    if logit == -np.inf:', ['re:^tables/disjoint/z1']),
+]
